@@ -155,6 +155,11 @@ def build(beh, idx, rng, nkeys):
     cache = rng.choice([0, 0, 8])
     use_wt = rng.random() < 0.7
     steps = [{"op": "open", "c": "w", "mode": "rw", "shadow": 1}]
+    if 0 < epn <= 16 and rng.random() < 0.6:
+        # rows that only make the tree deep (the same rows in the native table): integer keys that interleave with, but
+        # never equal, the numeric keys of the pools; with them the root node has children on both sides
+        base, stride = rng.choice([(-90011, 6007), (-611, 67), (-1013, 67), (-1500007, 100003), (-611, 6007)])   # (checked: no collision with a pool key)
+        steps.append({"op": "prefill", "c": "w", "n": rng.choice([12, 25, 60]), "base": base, "stride": stride, "wt": 0})
     wt = [0]
 
     def sql(q, args, kind="exec"):
